@@ -55,8 +55,9 @@ func (p *DeletionParameters) ComputeInputHashDeletion() error {
 		return err
 	}
 	data = append(data, buf.Bytes()...)
-	data = append(data, p.PreRoot.Bytes()...)
-	data = append(data, p.PostRoot.Bytes()...)
+	// roots are hashed as fixed-width 32-byte words, as in the circuit and on-chain
+	data = append(data, p.PreRoot.FillBytes(make([]byte, 32))...)
+	data = append(data, p.PostRoot.FillBytes(make([]byte, 32))...)
 
 	hashBytes := keccak256.Hash(data)
 	p.InputHash.SetBytes(hashBytes)
